@@ -109,7 +109,10 @@ _e2e('C08', 'Two recording subscribers per transfer (one raising in on_done), ou
             'inside on_done, schedules, fault and cancel sweeps incl. the double announce '
             '(cancel racing the submission thread), provided sizes.')
 _e2e('C09', 'Running progress sums per subscriber for all modes, client-level body rewinds, '
-            'stream retries, flexible checksums, size geometries.')
+            'stream retries, flexible checksums, size geometries.  The accounting component '
+            'itself has its own specification (ReadChunk.tla: read / seek with three whences / '
+            'enable / disable over chunk geometries, TLC exhaustive) and every transition TLC '
+            'explores is replayed into the real ReadFileChunk through both constructors.')
 _e2e('C10', 'In-flight request/head counters, write overlap, stage occupancy and request '
             'threads at every event for limits in {1,2} and 2-3 mixed concurrent transfers.')
 _e2e('C11', 'Byte counters of buffered upload data, the sliding download window and IO queue '
